@@ -78,14 +78,28 @@ func RunClone(s *Scen, r *vk.Rand, a, b int, bin, base string) {
 		return
 	}
 	wantRev := si.Disks[disk].RevisionCounter
-	kinds := []string{"none", "kill-clone", "missing-snapshot", "kill-source", "writes-during-copy"}
+	kinds := []string{"none", "kill-clone", "missing-snapshot", "kill-source", "writes-during-copy", "clone-reload-fails"}
 	kind := kinds[(s.Case/100+s.Case%100)%len(kinds)]
+	srcChain := 0
+	for i, n := range si.Chain {
+		if n == disk {
+			srcChain = len(si.Chain) - i // S and everything below it
+		}
+	}
+	if kind == "clone-reload-fails" && srcChain < 2 {
+		kind = "none" // a one-member chain always fits
+	}
 	s.Cfg = map[string]interface{}{"size": size, "source_rf": srcRF, "snapshots": nsnap, "cloned": sName, "chain_position": pick, "fault": kind}
 	src.event("cloning snapshot %s (position %d of %d), fault %s", sName, pick, nsnap, kind)
 	cp := dst.Reps[0]
 	cp.Extra = []string{"--type", "clone", "--cloneIP", src.CtlIP, "--snapName", sName}
 	if kind == "missing-snapshot" {
 		cp.Extra[5] = "nosuchsnapshot"
+	}
+	if kind == "clone-reload-fails" {
+		// the copied chain (S and below, plus the head) is one longer than the clone replica may hold: every step of
+		// the copy succeeds, the reload of the copied chain is refused - the clone has failed and must say so
+		cp.Env = []string{fmt.Sprintf("MAX_CHAIN_LENGTH=%d", srcChain)}
 	}
 	// sampler at the clone replica: mode RW implies clone status completed
 	stop := make(chan struct{})
@@ -168,7 +182,7 @@ func RunClone(s *Scen, r *vk.Rand, a, b int, bin, base string) {
 	// completion: the new controller lists the clone RW (bounded)
 	done := false
 	end := time.Now().Add(240 * time.Second)
-	if kind == "missing-snapshot" {
+	if kind == "missing-snapshot" || kind == "clone-reload-fails" {
 		end = time.Now().Add(25 * time.Second)
 	}
 	if kind == "kill-clone" {
@@ -207,11 +221,11 @@ func RunClone(s *Scen, r *vk.Rand, a, b int, bin, base string) {
 		s.Fail([]string{"C19"}, "clone-RW-before-completed", bad)
 		return
 	}
-	if early != "" && kind != "missing-snapshot" {
+	if early != "" && kind != "missing-snapshot" && kind != "clone-reload-fails" {
 		s.Fail([]string{"C19"}, "clone-status-completed-too-early", "the clone replica reported clonestatus=completed while "+early)
 		return
 	}
-	if kind == "missing-snapshot" {
+	if kind == "missing-snapshot" || kind == "clone-reload-fails" {
 		// a clone that cannot succeed must be reported as an error and must never serve
 		ri, _ := GetRep(cp.IP)
 		st := ""
@@ -219,8 +233,16 @@ func RunClone(s *Scen, r *vk.Rand, a, b int, bin, base string) {
 			st = ri.CloneStatus
 		}
 		s.Res.Count("failed_clones_observed", 1)
-		if done || st == "completed" {
-			s.Fail([]string{"C19"}, "failed-clone-served", fmt.Sprintf("the snapshot to clone does not exist at the source, yet the clone reports status %q and the new controller lists it RW=%v", st, done))
+		s.Res.Count("failed_clones_observed:"+kind, 1)
+		why := "the snapshot to clone does not exist at the source"
+		if kind == "clone-reload-fails" {
+			why = fmt.Sprintf("the clone replica cannot load the copied chain (%d members plus head, MAX_CHAIN_LENGTH=%d)", srcChain, srcChain)
+			if !cp.LogHas("too long", 0) && !done && completedSamples == 0 {
+				s.Res.Count("clone_reload_failure_not_reached", 1)
+			}
+		}
+		if done || st == "completed" || completedSamples > 0 {
+			s.Fail([]string{"C19"}, "failed-clone-served:"+kind, fmt.Sprintf("%s, yet the clone reported status completed (%d samples, now %q) and the new controller lists it RW=%v", why, completedSamples, st, done))
 		}
 		return
 	}
